@@ -6,7 +6,7 @@ open Gatery.C20
 
 /-- the statement a callback with index `j` produces (if any) -/
 def produced (j : Nat) : TEv → Option Tagged
-  | .set _ name bits => some ⟨j, name, renderState bits⟩
+  | .set _ name bits => some ⟨j, name, renderSet bits⟩
   | .rst _ name v => some ⟨j, name, [if v then '1' else '0']⟩
   | .read name isBool bits => (renderCheck isBool bits).map fun v => ⟨j, name, v⟩
   | _ => none
@@ -93,20 +93,23 @@ theorem phasesOk_modifyLast (fl : Nat) (f : Phase → Phase) (x : Tagged) (hf : 
       rw [this]; exact hx
 
 /-- whatever a callback of the remaining list produces satisfies `P` at its slot -/
-def Compat (j fl len : Nat) (evs : List TEv) : Prop :=
-  ∀ i e x slot, evs[i]? = some e → produced (j + i) e = some x → (slots fl len evs)[i]? = some (some slot) → P slot x
+def Compat (j : Nat) (st : St) (evs : List TEv) : Prop :=
+  ∀ i e x slot, evs[i]? = some e → produced (j + i) e = some x → (slots j st evs)[i]? = some (some slot) → P slot x
 
-theorem compat_tail {j fl len : Nat} {e : TEv} {r : List TEv} {fl' len' : Nat} {o : Option (Nat × Nat)}
-    (hs : slots fl len (e :: r) = o :: slots fl' len' r) (h : Compat P j fl len (e :: r)) : Compat P (j + 1) fl' len' r := by
+theorem compat_tail {j : Nat} {st : St} {e : TEv} {r : List TEv} (h : Compat P j st (e :: r)) :
+    Compat P (j + 1) (step j st e).2 r := by
   intro i e' x slot he hp hsl
   apply h (i + 1) e' x slot
   · simpa using he
   · rwa [show j + (i + 1) = j + 1 + i by omega]
-  · rw [hs]; simpa using hsl
+  · simpa [slots] using hsl
+
+/-- the overrides waiting in `m_postDuringPhase` satisfy `P` at the slot they will get -/
+def PostOk (j : Nat) (st : St) (evs : List TEv) : Prop :=
+  ∀ x ∈ st.post.items, ∀ slot, afterSlot j st evs = some slot → P slot x
 
 theorem run_items : ∀ (evs : List TEv) (j : Nat) (st : St), FinishLast evs →
-    PhasesOk P st.flushes 0 st.phases → (∀ x ∈ st.post.items, P (st.flushes + 1, 0) x) →
-    Compat P j st.flushes st.phases.length evs →
+    PhasesOk P st.flushes 0 st.phases → PostOk P j st evs → Compat P j st evs →
     ∀ g ∈ run j st evs, ∀ x ∈ g.items, P (g.interval, g.phase) x := by
   intro evs
   induction evs with
@@ -114,6 +117,7 @@ theorem run_items : ∀ (evs : List TEv) (j : Nat) (st : St), FinishLast evs →
   | cons e evs ih =>
     intro j st hfin hph hpost hc g hg
     simp only [run, List.mem_append] at hg
+    have hct := compat_tail P hc
     have hflush : ∀ now, ∀ g ∈ (flush st now).1, ∀ x ∈ g.items, P (g.interval, g.phase) x := by
       intro now g hg x hx
       obtain ⟨h1, _, _, _, _, p, hp, hc1, hc2, hc3⟩ := flush_groups st now g hg
@@ -123,68 +127,89 @@ theorem run_items : ∀ (evs : List TEv) (j : Nat) (st : St), FinishLast evs →
     | powerOn =>
       rcases hg with hg | hg
       · simp [step] at hg
-      · refine ih (j + 1) (step j st .powerOn).2 (by simpa [FinishLast] using hfin) ?_ ?_ ?_ g hg
+      · refine ih (j + 1) (step j st .powerOn).2 (by simpa [FinishLast] using hfin) ?_ ?_ hct g hg
         · exact phasesOk_append_empty P _ _ _ hph
-        · exact hpost
-        · have := compat_tail P (e := .powerOn) (r := evs) (fl' := st.flushes) (len' := st.phases.length + 1) (o := none) (by simp [slots]) hc
-          simpa [step] using this
+        · intro x hx slot hs; exact hpost x (by simpa [step] using hx) slot (by simpa [afterSlot] using hs)
     | microTick =>
       rcases hg with hg | hg
       · simp [step] at hg
-      · refine ih (j + 1) (step j st .microTick).2 (by simpa [FinishLast] using hfin) ?_ ?_ ?_ g hg
+      · refine ih (j + 1) (step j st .microTick).2 (by simpa [FinishLast] using hfin) ?_ ?_ hct g hg
         · exact phasesOk_append_empty P _ _ _ hph
-        · exact hpost
-        · have := compat_tail P (e := .microTick) (r := evs) (fl' := st.flushes) (len' := st.phases.length + 1) (o := none) (by simp [slots]) hc
-          simpa [step] using this
+        · intro x hx slot hs; exact hpost x (by simpa [step] using hx) slot (by simpa [afterSlot] using hs)
     | finish now =>
       simp only [FinishLast] at hfin
       subst hfin
       rcases hg with hg | hg
-      · exact hflush now g hg
+      · exact hflush _ g hg
       · simp [run] at hg
-    | newPhase after now =>
-      cases after with
-      | false =>
+    | newPhase ph now =>
+      cases ph with
+      | before =>
         rcases hg with hg | hg
         · simp [step] at hg
-        · refine ih (j + 1) (step j st (.newPhase false now)).2 (by simpa [FinishLast] using hfin) ?_ ?_ ?_ g hg
+        · refine ih (j + 1) (step j st (.newPhase .before now)).2 (by simpa [FinishLast] using hfin) ?_ ?_ hct g hg
           · simpa [step] using hph
-          · simpa [step] using hpost
-          · have := compat_tail P (e := .newPhase false now) (r := evs) (fl' := st.flushes) (len' := st.phases.length) (o := none) (by simp [slots]) hc
-            simpa [step] using this
-      | true =>
+          · intro x hx slot hs; exact hpost x (by simpa [step] using hx) slot (by simpa [afterSlot] using hs)
+      | during =>
         rcases hg with hg | hg
-        · exact hflush now g (by simpa [step] using hg)
-        · refine ih (j + 1) (step j st (.newPhase true now)).2 (by simpa [FinishLast] using hfin) ?_ ?_ ?_ g hg
-          · simp only [step, if_true, flush, PhasesOk, and_true]
-            exact ⟨fun x hx => hpost x hx, by simp [Phase.items]⟩
-          · simp [step, Phase.items]
-          · have := compat_tail P (e := .newPhase true now) (r := evs) (fl' := st.flushes + 1) (len' := 2) (o := none) (by simp [slots]) hc
-            simpa [step, flush] using this
+        · simp [step] at hg
+        · refine ih (j + 1) (step j st (.newPhase .during now)).2 (by simpa [FinishLast] using hfin) ?_ ?_ hct g hg
+          · simpa [step] using hph
+          · intro x hx slot hs; exact hpost x (by simpa [step] using hx) slot (by simpa [afterSlot] using hs)
+      | after =>
+        have hp0 : ∀ x ∈ st.post.items, P (postSlot st) x := fun x hx => hpost x hx _ (by simp [afterSlot])
+        by_cases hp : st.pending = true
+        · rcases hg with hg | hg
+          · simp [step, hp] at hg
+          · refine ih (j + 1) (step j st (.newPhase .after now)).2 (by simpa [FinishLast] using hfin) ?_ ?_ hct g hg
+            · simp only [step, hp, if_true]
+              have h1 := phasesOk_append_empty P st.flushes st.phases 0 hph
+              -- phases ++ [post, {}] : the postponed overrides take the slot of the phase pushed by the (skipped) flush
+              have : ∀ (ps : List Phase) (k : Nat), PhasesOk P st.flushes k ps →
+                  (∀ x ∈ st.post.items, P (st.flushes, k + ps.length) x) → PhasesOk P st.flushes k (ps ++ [st.post, {}]) := by
+                intro ps
+                induction ps with
+                | nil => intro k _ h; simpa [PhasesOk, Phase.items] using h
+                | cons q ps ih2 =>
+                  intro k h hx
+                  refine ⟨h.1, ih2 (k + 1) h.2 ?_⟩
+                  intro x hx'; have := hx x hx'
+                  rwa [show k + 1 + ps.length = k + (q :: ps).length by simp; omega]
+              apply this _ _ hph
+              intro x hx; have := hp0 x hx
+              simpa [postSlot, hp] using this
+            · intro x hx; simp [step, hp, Phase.items] at hx
+        · rcases hg with hg | hg
+          · exact hflush now g (by simpa [step, hp] using hg)
+          · refine ih (j + 1) (step j st (.newPhase .after now)).2 (by simpa [FinishLast] using hfin) ?_ ?_ hct g hg
+            · have hp' : st.pending = false := by simpa using hp
+              simp only [step, hp', flush]
+              refine ⟨fun x hx => ?_, by simp [PhasesOk, Phase.items]⟩
+              have := hp0 x hx
+              simpa [postSlot, hp'] using this
+            · intro x hx; simp [step, hp, Phase.items] at hx
     | set during name bits =>
-      have hx0 : ∀ slot, (slots st.flushes st.phases.length (TEv.set during name bits :: evs))[0]? = some (some slot) →
-          P slot ⟨j, name, renderState bits⟩ := fun slot hs => hc 0 (TEv.set during name bits) ⟨j, name, renderState bits⟩ slot (by simp) (by simp [produced]) hs
-      have hct := compat_tail P (e := .set during name bits) (r := evs) (fl' := st.flushes) (len' := st.phases.length)
-        (o := some (if during then (st.flushes + 1, 0) else (st.flushes, st.phases.length - 1))) (by simp [slots]) hc
+      have hx0 : ∀ slot, (slots j st (TEv.set during name bits :: evs))[0]? = some (some slot) →
+          P slot ⟨j, name, renderSet bits⟩ := fun slot hs => hc 0 (TEv.set during name bits) ⟨j, name, renderSet bits⟩ slot (by simp) (by simp [produced]) hs
       rcases hg with hg | hg
       · simp only [step] at hg; split at hg <;> simp at hg
       · cases during with
         | true =>
-          refine ih (j + 1) (step j st (.set true name bits)).2 (by simpa [FinishLast] using hfin) ?_ ?_ ?_ g hg
+          refine ih (j + 1) (step j st (.set true name bits)).2 (by simpa [FinishLast] using hfin) ?_ ?_ hct g hg
           · simpa [step] using hph
-          · intro x hx
+          · intro x hx slot hs
+            have hs' : afterSlot j st (TEv.set true name bits :: evs) = some slot := by simpa [afterSlot] using hs
             simp only [step, if_true, Phase.items, List.mem_append] at hx
             rcases hx with (hx | hx) | hx
-            · exact hpost x (by simp [Phase.items, hx])
+            · exact hpost x (by simp [Phase.items, hx]) slot hs'
             · rcases mem_mapSet hx with rfl | hx
-              · exact hx0 (st.flushes + 1, 0) (by simp [slots])
-              · exact hpost x (by simp [Phase.items, hx])
-            · exact hpost x (by simp [Phase.items, hx])
-          · simpa [step] using hct
+              · exact hx0 slot (by simp [slots, hs'])
+              · exact hpost x (by simp [Phase.items, hx]) slot hs'
+            · exact hpost x (by simp [Phase.items, hx]) slot hs'
         | false =>
-          refine ih (j + 1) (step j st (.set false name bits)).2 (by simpa [FinishLast] using hfin) ?_ ?_ ?_ g hg
+          refine ih (j + 1) (step j st (.set false name bits)).2 (by simpa [FinishLast] using hfin) ?_ ?_ hct g hg
           · simp only [step, Bool.false_eq_true, if_false]
-            apply phasesOk_modifyLast P _ _ ⟨j, name, renderState bits⟩ _ _ _ hph
+            apply phasesOk_modifyLast P _ _ ⟨j, name, renderSet bits⟩ _ _ _ hph
             · have := hx0 (st.flushes, st.phases.length - 1) (by simp [slots])
               simpa using this
             · intro p y hy
@@ -195,30 +220,27 @@ theorem run_items : ∀ (evs : List TEv) (j : Nat) (st : St), FinishLast evs →
                 · exact Or.inl rfl
                 · exact Or.inr (Or.inl (Or.inr hy))
               · exact Or.inr (Or.inr hy)
-          · simpa [step] using hpost
-          · simpa [step, modifyLast_length] using hct
+          · intro x hx slot hs; exact hpost x (by simpa [step] using hx) slot (by simpa [afterSlot] using hs)
     | rst during name v =>
-      have hx0 : ∀ slot, (slots st.flushes st.phases.length (TEv.rst during name v :: evs))[0]? = some (some slot) →
+      have hx0 : ∀ slot, (slots j st (TEv.rst during name v :: evs))[0]? = some (some slot) →
           P slot ⟨j, name, [if v then '1' else '0']⟩ := fun slot hs => hc 0 (TEv.rst during name v) ⟨j, name, [if v then '1' else '0']⟩ slot (by simp) (by simp [produced]) hs
-      have hct := compat_tail P (e := .rst during name v) (r := evs) (fl' := st.flushes) (len' := st.phases.length)
-        (o := some (if during then (st.flushes + 1, 0) else (st.flushes, st.phases.length - 1))) (by simp [slots]) hc
       rcases hg with hg | hg
       · simp only [step] at hg; split at hg <;> simp at hg
       · cases during with
         | true =>
-          refine ih (j + 1) (step j st (.rst true name v)).2 (by simpa [FinishLast] using hfin) ?_ ?_ ?_ g hg
+          refine ih (j + 1) (step j st (.rst true name v)).2 (by simpa [FinishLast] using hfin) ?_ ?_ hct g hg
           · simpa [step] using hph
-          · intro x hx
+          · intro x hx slot hs
+            have hs' : afterSlot j st (TEv.rst true name v :: evs) = some slot := by simpa [afterSlot] using hs
             simp only [step, if_true, Phase.items, List.mem_append] at hx
             rcases hx with (hx | hx) | hx
-            · exact hpost x (by simp [Phase.items, hx])
-            · exact hpost x (by simp [Phase.items, hx])
+            · exact hpost x (by simp [Phase.items, hx]) slot hs'
+            · exact hpost x (by simp [Phase.items, hx]) slot hs'
             · rcases mem_mapSet hx with rfl | hx
-              · exact hx0 (st.flushes + 1, 0) (by simp [slots])
-              · exact hpost x (by simp [Phase.items, hx])
-          · simpa [step] using hct
+              · exact hx0 slot (by simp [slots, hs'])
+              · exact hpost x (by simp [Phase.items, hx]) slot hs'
         | false =>
-          refine ih (j + 1) (step j st (.rst false name v)).2 (by simpa [FinishLast] using hfin) ?_ ?_ ?_ g hg
+          refine ih (j + 1) (step j st (.rst false name v)).2 (by simpa [FinishLast] using hfin) ?_ ?_ hct g hg
           · simp only [step, Bool.false_eq_true, if_false]
             apply phasesOk_modifyLast P _ _ ⟨j, name, [if v then '1' else '0']⟩ _ _ _ hph
             · have := hx0 (st.flushes, st.phases.length - 1) (by simp [slots])
@@ -231,23 +253,19 @@ theorem run_items : ∀ (evs : List TEv) (j : Nat) (st : St), FinishLast evs →
               · rcases mem_mapSet hy with rfl | hy
                 · exact Or.inl rfl
                 · exact Or.inr (Or.inr hy)
-          · simpa [step] using hpost
-          · simpa [step, modifyLast_length] using hct
+          · intro x hx slot hs; exact hpost x (by simpa [step] using hx) slot (by simpa [afterSlot] using hs)
     | read name isBool bits =>
-      have hct := compat_tail P (e := .read name isBool bits) (r := evs) (fl' := st.flushes) (len' := st.phases.length)
-        (o := some (st.flushes, st.phases.length - 1)) (by simp [slots]) hc
       rcases hg with hg | hg
       · simp only [step] at hg; split at hg <;> simp at hg
       · cases hr : renderCheck isBool bits with
         | none =>
-          refine ih (j + 1) (step j st (.read name isBool bits)).2 (by simpa [FinishLast] using hfin) ?_ ?_ ?_ g hg
+          refine ih (j + 1) (step j st (.read name isBool bits)).2 (by simpa [FinishLast] using hfin) ?_ ?_ hct g hg
           · simpa [step, hr] using hph
-          · simpa [step, hr] using hpost
-          · simpa [step, hr] using hct
+          · intro x hx slot hs; exact hpost x (by simpa [step, hr] using hx) slot (by simpa [afterSlot] using hs)
         | some v =>
           have hx0 : P (st.flushes, st.phases.length - 1) ⟨j, name, v⟩ :=
             hc 0 (TEv.read name isBool bits) ⟨j, name, v⟩ _ (by simp) (by simp [produced, hr]) (by simp [slots])
-          refine ih (j + 1) (step j st (.read name isBool bits)).2 (by simpa [FinishLast] using hfin) ?_ ?_ ?_ g hg
+          refine ih (j + 1) (step j st (.read name isBool bits)).2 (by simpa [FinishLast] using hfin) ?_ ?_ hct g hg
           · simp only [step, hr]
             apply phasesOk_modifyLast P _ _ ⟨j, name, v⟩ _ _ _ hph
             · simpa using hx0
@@ -258,13 +276,12 @@ theorem run_items : ∀ (evs : List TEv) (j : Nat) (st : St), FinishLast evs →
               · exact Or.inl hy
               · exact Or.inr (Or.inl (Or.inr hy))
               · exact Or.inr (Or.inr hy)
-          · simpa [step, hr] using hpost
-          · simpa [step, hr, modifyLast_length] using hct
+          · intro x hx slot hs; exact hpost x (by simpa [step, hr] using hx) slot (by simpa [afterSlot] using hs)
 end
 
 /-- statement `x` was produced by callback number `x.tag` of `evs`, and that callback belongs to `slot` -/
 def Recorded (evs : List TEv) (slot : Nat × Nat) (x : Tagged) : Prop :=
-  (slots 0 0 evs)[x.tag]? = some (some slot) ∧ (evs[x.tag]?).bind (produced x.tag) = some x
+  (slots 0 {} evs)[x.tag]? = some (some slot) ∧ (evs[x.tag]?).bind (produced x.tag) = some x
 
 theorem produced_tag {j : Nat} {e : TEv} {x : Tagged} (h : produced j e = some x) : x.tag = j := by
   cases e <;> simp [produced] at h
@@ -276,7 +293,7 @@ theorem run_recorded (evs : List TEv) (hfin : FinishLast evs) :
     ∀ g ∈ run 0 {} evs, ∀ x ∈ g.items, Recorded evs (g.interval, g.phase) x := by
   apply run_items (Recorded evs) evs 0 {} hfin
   · simp [PhasesOk]
-  · simp [Phase.items]
+  · intro x hx; simp [Phase.items] at hx
   · intro i e x slot he hp hs
     have ht := produced_tag hp
     simp only [Nat.zero_add] at ht hp
